@@ -49,6 +49,9 @@ def make_project(nfiles=1, nmod=1, nprog=1, nproc=1, ntype=1, nabs=0, nblock=0, 
             L.append("  use third_party_lib")
         L.append("  implicit none")
         L += [f"  integer :: mvar{m}", f"  !! module variable {m}"]
+        if nnl and m == 1:
+            # a namelist in the specification part of a module (besides those inside procedures)
+            L += ["  integer :: mnlv", "  namelist /modnl/ mnlv, mvar1", "  !! module-level namelist"]
         C = [f"subroutine msub{m}(a)", f"  !! module subroutine {m}", "  integer, intent(in) :: a", f"  !! argument of msub{m}"]
         if m == 1:
             C += ["  " + l for l in nl_lines()]
@@ -68,7 +71,7 @@ def make_project(nfiles=1, nmod=1, nprog=1, nproc=1, ntype=1, nabs=0, nblock=0, 
     for s in range(1, nsub + 1):
         if nmod:
             par = "mod1" if s == 1 else f"mod1:submod{s - 1}"
-            L = [f"submodule ({par}) submod{s}", f"  !! doc of submodule {s}", "contains"]
+            L = [f"submodule ({par}) submod{s}", f"  !! doc of submodule {s}"] + ([f"  integer :: snlv{s}", f"  namelist /subnl{s}/ snlv{s}", "  !! submodule-level namelist"] if nnl else []) + ["contains"]
             if s == 1:
                 L += ["  module subroutine smp(z)", "    !! implementation", "    integer :: z", "  end subroutine smp"]
             else:
